@@ -179,7 +179,7 @@ NOT_BLOCK_TAGS = 'a b em i span img code kbd q s u search picture x-y my-tag bli
 
 # --- code spans that run over line ends (a small model of its own, independent of the G4 generator) ----------------------
 
-_CS_WORDS = ['foo', 'bar', 'a*b', '<b>', '&amp;', 'x', '\\', '[l](u)', '~~', 'é', '_']
+_CS_WORDS = ['foo', 'bar', 'a*b', '<b>', '&amp;', 'x', '\\', '[l](u)', '~~', 'é', 'a_b']
 _CS_EDGES = ['', ' ', '\n', '  ', ' \n', '', ' ', '\n']
 _CS_SEPS = [' ', ' ', '\n', '  ', ' \n']
 
